@@ -26,6 +26,7 @@ inductive Ast where
   | call0 (f : Ast)
   | member (e : Ast) (n : List Ch)
   | un (op : Tok) (e : Ast)
+  | cast (ty : List Ch) (e : Ast)
   | bin (op : Tok) (l r : Ast)
   | tern (c a b : Ast)
   | pyif (a c b : Ast)
@@ -51,6 +52,7 @@ def flat : Ast → List Tok
   | .call0 f => flat f ++ [.lp, .rp]
   | .member e n => flat e ++ [tDot, .id n]
   | .un op e => op :: flat e
+  | .cast ty e => .lp :: .id ty :: .rp :: flat e
   | .bin op l r => flat l ++ op :: flat r
   | .tern c a b => flat c ++ tQ :: flat a ++ tColon :: flat b
   | .pyif a c b => flat a ++ kIf :: flat c ++ kElse :: flat b
@@ -100,6 +102,9 @@ def leafOk (f : Fmt) : List Tok → Bool
   | .id s :: r => !isKeyword f s && (r.isEmpty || (f = .cpp && qualTail r))
   | _ => false
 
+/-- type names a C-style cast `(T)e` may use (C family only) -/
+def isTypeName (s : List Ch) : Bool := s == [100, 111, 117, 98, 108, 101]   -- double
+
 /-- level of the outermost construct; holes count as `hl` -/
 def lvl (f : Fmt) (hl : Nat) : Ast → Nat
   | .leaf _ => 16
@@ -109,6 +114,7 @@ def lvl (f : Fmt) (hl : Nat) : Ast → Nat
   | .call0 _ => 15
   | .member _ _ => 15
   | .un op _ => (preLevel f op).getD 0
+  | .cast _ _ => 13
   | .bin op _ _ => (binLevel f op).getD 0
   | .tern _ _ _ => 2
   | .pyif _ _ _ => 2
@@ -125,6 +131,7 @@ def ok (f : Fmt) (hl : Nat) : Ast → Bool
       match preLevel f op with
       | some p => ok f hl e && decide (p ≤ lvl f hl e)
       | none => false
+  | .cast ty e => decide (f ≠ .py) && isTypeName ty && ok f hl e && decide (13 ≤ lvl f hl e)
   | .bin op l r =>
       match binLevel f op with
       | some p => ok f hl l && ok f hl r && decide (p ≤ lvl f hl l) && decide (p + 1 ≤ lvl f hl r)
@@ -144,6 +151,7 @@ def subst (σ : Nat → Ast) : Ast → Ast
   | .call0 f => .call0 (subst σ f)
   | .member e n => .member (subst σ e) n
   | .un op e => .un op (subst σ e)
+  | .cast ty e => .cast ty (subst σ e)
   | .bin op l r => .bin op (subst σ l) (subst σ r)
   | .tern c a b => .tern (subst σ c) (subst σ a) (subst σ b)
   | .pyif a c b => .pyif (subst σ a) (subst σ c) (subst σ b)
@@ -157,6 +165,7 @@ def holesIn (n : Nat) : Ast → Bool
   | .call0 f => holesIn n f
   | .member e _ => holesIn n e
   | .un _ e => holesIn n e
+  | .cast _ e => holesIn n e
   | .bin _ l r => holesIn n l && holesIn n r
   | .tern c a b => holesIn n c && holesIn n a && holesIn n b
   | .pyif a c b => holesIn n a && holesIn n c && holesIn n b
@@ -189,6 +198,11 @@ def takeQual : Nat → List Tok → List Tok × List Tok
       (.op [60] :: .id a :: .op [62] :: .op [58, 58] :: .id s :: q.1, q.2)
   | _, r => ([], r)
 
+/-- `( double )` followed by something: a C-style cast (C family) -/
+def isCastHead (f : Fmt) : List Tok → Bool
+  | .id ty :: .rp :: _ :: _ => decide (f ≠ .py) && isTypeName ty
+  | _ => false
+
 def parseGo (f : Fmt) : Nat → PMode → List Tok → Option (Ast × List Tok)
   | 0, _, _ => none
   | fuel + 1, .expr min, toks =>
@@ -219,6 +233,15 @@ def parseGo (f : Fmt) : Nat → PMode → List Tok → Option (Ast × List Tok)
               | some (a, r') => parseGo f fuel (.infx min a) r'
               | none => none
           | .lp =>
+              if isCastHead f r then
+                match r with
+                | .id ty :: .rp :: r2 =>
+                    if 13 < min then none else
+                    match parseGo f fuel (.expr 13) r2 with
+                    | some (e, r') => parseGo f fuel (.infx min (.cast ty e)) r'
+                    | none => none
+                | _ => none
+              else
               match parseGo f fuel (.expr 2) r with
               | some (e, .rp :: r') =>
                   match parseGo f fuel (.post (.paren e)) r' with
